@@ -11,7 +11,7 @@ repo = os.environ.get("BASELINE_REPO", "/repo")
 env["PYTHONPATH"] = repo
 with tempfile.TemporaryDirectory() as td:
     xml = os.path.join(td, "junit.xml")
-    jobs = os.environ.get("BASELINE_JOBS", "12")
+    jobs = os.environ.get("BASELINE_JOBS", "0")   # 0 = serial, exactly the command of BASELINE.json (xdist under load trips hypothesis deadlines)
     cmd = ["/venv/bin/python", "-m", "pytest", "-ra", "-q", "-p", "no:cacheprovider", "--timeout=900",
            "--continue-on-collection-errors", f"--junitxml={xml}"] + (["-n", jobs] if jobs != "0" else [])
     p = subprocess.run(cmd, cwd=repo, env=env, capture_output=True, text=True)
